@@ -195,3 +195,105 @@ Definition landmark_trace_fibc (nbrs : list (list nat)) (w : nat -> nat -> Z) (N
   | [] => []
   | r0 :: _ => flat_map (fun src => snd (row_fibc_tr nbrs w N (length r0) src src)) lm
   end.
+
+(* ---------- heap situations met by decrease_key (search guidance and coverage statistics only) ----------
+   class of a call decrease_key(i, nk) on heap h, by where node i sits:
+     1 the minimum root        2 another root, nk below the minimum (must become min_root)
+     3 another root, not below the minimum        4 a child, cut, below the minimum
+     5 a child, cut, not below the minimum        6 a child that keeps its place (nk >= parent's key)
+     0 not stored *)
+Fixpoint pk_tree (i : Z) (t : tree) : option Z :=
+  match t with
+  | Node _ k _ cs =>
+    (fix go (l : list tree) : option Z :=
+       match l with
+       | [] => None
+       | c :: l' => if Z.eqb (t_idx c) i then Some k
+                    else match pk_tree i c with Some r => Some r | None => go l' end
+       end) cs
+  end.
+
+Fixpoint pk_forest (i : Z) (f : list tree) : option Z :=
+  match f with
+  | [] => None
+  | t :: f' => match pk_tree i t with Some r => Some r | None => pk_forest i f' end
+  end.
+
+Definition dk_class (i nk : Z) (h : heap) : nat :=
+  match h_roots h with
+  | [] => 0%nat
+  | m :: rest =>
+    if Z.eqb (t_idx m) i then 1%nat
+    else if existsb (fun t => Z.eqb (t_idx t) i) rest
+         then (if Z.ltb nk (t_key m) then 2%nat else 3%nat)
+         else match pk_forest i (h_roots h) with
+              | Some pk => if Z.ltb nk pk then (if Z.ltb nk (t_key m) then 4%nat else 5%nat) else 6%nat
+              | None => 0%nat
+              end
+  end.
+
+Section EventsC.
+  Variable nbrs : list (list nat).
+  Variable w : nat -> nat -> Z.
+  Variable N : nat.
+  Variable K : nat.
+
+  (* the decrease_key calls of one inner loop, classified on the heap they meet *)
+  Fixpoint relax_events (u : nat) (ws : list nat) (st : cstate) : list nat :=
+    match ws with
+    | [] => []
+    | v :: ws' =>
+      match nth_error (c_s st) v with
+      | Some false =>
+        match nth_error (c_dist st) u, nth_error (c_dist st) v, nth_error (c_f st) v with
+        | Some (Some du), Some dv, Some fv =>
+          let nd := du + w u v in
+          if lt_inf nd dv
+          then if fv
+               then dk_class (Z.of_nat v) nd (c_heap st) ::
+                    relax_events u ws'
+                      (mkC (upd (c_dist st) v (Some nd)) (c_s st) (c_f st)
+                           (decrease_key (Z.of_nat v) nd (c_heap st)))
+               else relax_events u ws'
+                      (mkC (upd (c_dist st) v (Some nd)) (c_s st)
+                           (upd (c_f st) v true) (insert (Z.of_nat v) nd (c_heap st)))
+          else relax_events u ws' st
+        | _, _, _ => relax_events u ws' st
+        end
+      | _ => relax_events u ws' st
+      end
+    end.
+
+  Definition step_events (st : cstate) : list nat :=
+    match extract_min (c_heap st) with
+    | Ok (h', Some (i, _)) =>
+      let u := Z.to_nat i in
+      match nbr_row nbrs K u with
+      | DOk ws => relax_events u ws (mkC (c_dist st) (upd (c_s st) u true) (upd (c_f st) u false) h')
+      | _ => []
+      end
+    | _ => []
+    end.
+
+  Fixpoint loop_events (fuel : nat) (st : cstate) : list nat :=
+    match fuel with
+    | O => []
+    | S fuel' =>
+      match step_fibc nbrs w K st with
+      | Some (DOk st') => step_events st ++ loop_events fuel' st'
+      | _ => []
+      end
+    end.
+
+  Definition row_events (src : nat) : list nat :=
+    match init_c N src src with
+    | DOk st0 => loop_events (fuel_of N K) st0
+    | _ => []
+    end.
+End EventsC.
+
+Definition full_events_fibc (nbrs : list (list nat)) (w : nat -> nat -> Z) (N : nat) : list nat :=
+  match nbrs with
+  | [] => []
+  | r0 :: _ => flat_map (fun k => row_events nbrs w N (length r0) k) (seq 0 N)
+  end.
